@@ -24,6 +24,7 @@ import (
 	"strconv"
 	"strings"
 	"sync"
+	"sync/atomic"
 	"testing"
 	"time"
 
@@ -79,6 +80,9 @@ type vhpxReqSpec struct {
 	// HalfClose: the client shuts down its write side right after sending the request and keeps reading
 	// (printf ... | nc): net/http cancels the request context while the upstream has not answered yet
 	HalfClose bool `json:"half_close"`
+	// kinds "connect" / "disconnect": an upstream registers with / is removed from node Entry between two requests
+	Up   *vhpxUpSpec `json:"up"`
+	UpID string      `json:"up_id"`
 }
 
 type vhpxUpSpec struct {
@@ -475,6 +479,7 @@ type vhpxUpstream struct {
 	delay time.Duration
 	ln    net.Listener
 	agent net.Listener // when set, Dial reaches the agent's reverse proxy, which forwards to ln
+	dials atomic.Int64
 }
 
 var _ upstream.Upstream = &vhpxUpstream{}
@@ -482,8 +487,13 @@ var _ upstream.Upstream = &vhpxUpstream{}
 func (u *vhpxUpstream) EndpointID() string { return u.ep }
 func (u *vhpxUpstream) Forward() bool      { return false }
 func (u *vhpxUpstream) Dial() (net.Conn, error) {
-	if u.beh == "dialfail" {
+	n := u.dials.Add(1)
+	if u.beh == "dialfail" || (u.beh == "dialfail_once" && n == 1) {
 		return nil, errors.New("vhpx: dial refused")
+	}
+	if u.beh == "gone" {
+		// what ConnUpstream.Dial returns once the listener has announced go-away
+		return nil, fmt.Errorf("vhpx: open stream: %w", upstream.ErrGone)
 	}
 	if u.agent != nil {
 		return net.Dial("tcp", u.agent.Addr().String())
@@ -527,9 +537,19 @@ func (u *vhpxUpstream) handle(conn net.Conn) {
 		return
 	}
 
+	for {
+		if !u.handleHTTP(conn, br) {
+			return
+		}
+		_ = conn.SetDeadline(time.Now().Add(90 * time.Second))
+	}
+}
+
+// handleHTTP answers one request; true = the peer may send another one on this connection (no "Connection: close").
+func (u *vhpxUpstream) handleHTTP(conn net.Conn, br *bufio.Reader) bool {
 	req, err := http.ReadRequest(br)
 	if err != nil {
-		return
+		return false
 	}
 	body, _ := io.ReadAll(req.Body)
 	key := req.Header.Get(vhpxReqHeader)
@@ -565,7 +585,7 @@ func (u *vhpxUpstream) handle(conn net.Conn) {
 			if vhpxIsTimeout(err) {
 				break
 			}
-			return
+			return false
 		}
 		_ = conn.SetDeadline(time.Now().Add(90 * time.Second))
 	}
@@ -606,7 +626,7 @@ func (u *vhpxUpstream) handle(conn net.Conn) {
 		if tc, ok := conn.(*net.TCPConn); ok {
 			_ = tc.SetLinger(0)
 		}
-		return
+		return false
 	}
 	if req.Method != http.MethodHead {
 		if spec.Chunked {
@@ -616,7 +636,11 @@ func (u *vhpxUpstream) handle(conn net.Conn) {
 		}
 	}
 	if _, err := conn.Write(buf.Bytes()); err != nil {
-		return
+		return false
+	}
+	if !req.Close && delay == 0 {
+		// keep-alive, like a real service: the proxy decides whether it sends another request on this connection
+		return true
 	}
 	// Graceful close: FIN, then wait (shortly) for the peer to close so that nothing is cut by a RST.
 	if tc, ok := conn.(*net.TCPConn); ok {
@@ -624,7 +648,9 @@ func (u *vhpxUpstream) handle(conn net.Conn) {
 		_ = conn.SetReadDeadline(time.Now().Add(2 * time.Second))
 		_, _ = io.Copy(io.Discard, br)
 	}
+	return false
 }
+
 
 // vhpxDead accepts and immediately closes every connection.
 func (c *vhpxCluster) serveDead(ln net.Listener) {
@@ -658,7 +684,10 @@ func (c *vhpxCluster) run() {
 	go c.serveDead(deadLn)
 
 	states := make([]*cluster.State, n)
+	mgrs := make([]*upstream.LoadBalancedManager, n)
+	ups := make([]map[string]*vhpxUpstream, n)
 	for i, ns := range spec.Nodes {
+		ups[i] = map[string]*vhpxUpstream{}
 		st := cluster.NewState(&cluster.Node{
 			ID:        ns.ID,
 			ProxyAddr: addrs[i],
@@ -683,6 +712,7 @@ func (c *vhpxCluster) run() {
 		c.servers = append(c.servers, srv)
 		c.mu.Unlock()
 
+		mgrs[i] = mgr
 		for _, us := range ns.Upstreams {
 			u := &vhpxUpstream{
 				c:     c,
@@ -706,6 +736,7 @@ func (c *vhpxCluster) run() {
 				}(u.agent)
 			}
 			mgr.AddConn(u)
+			ups[i][u.id] = u
 		}
 
 		go func(srv *Server, ln net.Listener) {
@@ -774,6 +805,18 @@ func (c *vhpxCluster) run() {
 		}
 		start := time.Now()
 		switch rq.Kind {
+		case "connect":
+			// an upstream registers with node Entry now (agent reconnect, rebalancing, a new listener)
+			u := &vhpxUpstream{c: c, id: vhpxUnhex(rq.Up.ID), ep: vhpxUnhex(rq.Up.Ep), beh: rq.Up.Beh,
+				delay: time.Duration(rq.Up.DelayMs) * time.Millisecond, ln: c.listen()}
+			go u.serve()
+			mgrs[rq.Entry].AddConn(u)
+			ups[rq.Entry][u.id] = u
+		case "disconnect":
+			if u, ok := ups[rq.Entry][vhpxUnhex(rq.UpID)]; ok {
+				mgrs[rq.Entry].RemoveConn(u)
+				delete(ups[rq.Entry], u.id)
+			}
 		case "http":
 			c.doHTTP(addrs[rq.Entry], rq, key, &out)
 		case "tcp":
